@@ -201,6 +201,9 @@ impl<T> RcInner<T> {
         loop {
             let val = State::from_raw(self.state.fetch_add(COUNT, Ordering::SeqCst));
             if val.destructed() {
+                // Undo the increment: a failed upgrade must not leave a trace, or 2^STRONG_WIDTH
+                // of them carry into the weak count and the block is never freed.
+                self.state.fetch_sub(COUNT, Ordering::SeqCst);
                 return false;
             }
             if val.strong() != 0 {
